@@ -50,7 +50,7 @@ func tableSet(vv leveldb.VerifVersion) map[int64]bool {
 
 func runCase(c *wk.Ctx, i int) {
 	r := c.Rand(i)
-	os := model.RandomOptions(r, model.OptConstraints{})
+	os := model.RandomOptions(r, model.OptConstraints{NonInjective: true})
 	os.O.OpenFilesCacheCapacity = 1 + r.Intn(4) // evicted readers must be re-opened from storage
 	os.O.WriteBuffer = []int{1 << 10, 2 << 10, 4 << 10}[r.Intn(3)]
 	os.Desc["OpenFilesCacheCapacity"], os.Desc["WriteBuffer"] = os.O.OpenFilesCacheCapacity, os.O.WriteBuffer
